@@ -142,7 +142,7 @@ theorem gl_affine_sum (f : Rat → Rat) (n : Nat) (a b : Rat) (z pp : Nat → Ra
   obtain ⟨h1, h2⟩ := gl_affine n a b z pp k hk'
   rw [h1, h2]
   unfold xMiddle xHalfWidth
-  have e : (1 / 2 : Rat) * (b + a) + 1 / 2 * (b - a) * node n (-1) 1 z pp k
+  have e : (1 / 2 : Rat) * b + 1 / 2 * a + (1 / 2 * b - 1 / 2 * a) * node n (-1) 1 z pp k
       = (a + b) / 2 + (b - a) / 2 * node n (-1) 1 z pp k := by ring
   rw [e]; ring
 
@@ -212,6 +212,42 @@ theorem integ_history_independent (f : Rat → Rat) (z pp : Nat → Nat → Rat)
     (integSeq f z pp (pre ++ (n, a, b) :: post))[pre.length]?
       = some (integrateGLrule f (glAssemble n a b (z n) (pp n))) := by
   simp [integSeq, integrateGL]
+
+/-! ## fix fddea92 is value-neutral over the rationals -/
+
+/-- halving the limits first (`0.5*x_max ± 0.5*x_min`) gives the same midpoint and half width as `0.5*(x_max ± x_min)` -/
+theorem xMiddle_eq (a b : Rat) : xMiddle a b = (1 / 2 : Rat) * (b + a) := by unfold xMiddle; ring
+theorem xHalfWidth_eq (a b : Rat) : xHalfWidth a b = (1 / 2 : Rat) * (b - a) := by unfold xHalfWidth; ring
+
+/-! ## fix 455b721: rows that are not (root, weight) pairs are rejected by both rule-taking overloads -/
+
+/-- **gl_row_shape**: a row of any length other than 2 (0, 1, 3, …; a transposed rule) makes both rule-taking
+    overloads stop with the diagnostic; rules whose rows all have length 2 behave exactly as the pair model. -/
+theorem gl_row_shape (f : Rat → Rat) (vals : List Rat) (rows : List (List Rat)) :
+    (rowsOk rows = false → integrateGLruleRows f rows = .error .diag ∧ integrateGLvalsRows vals rows = .error .diag) ∧
+    (rowsOk rows = true → integrateGLruleRows f rows = integrateGLrule f (toPairs rows) ∧
+      integrateGLvalsRows vals rows = integrateGLvals vals (toPairs rows)) := by
+  constructor
+  · intro h
+    unfold integrateGLruleRows integrateGLvalsRows
+    simp only [h, Bool.not_false, if_true]
+    refine ⟨trivial, ?_⟩
+    by_cases hl : vals.length ≠ rows.length <;> simp [hl]
+  · intro h
+    have hlen : (toPairs rows).length = rows.length := by simp [toPairs]
+    constructor
+    · unfold integrateGLruleRows integrateGLvalsRows
+      simp only [h, Bool.not_true, Bool.false_eq_true, if_false, List.length_map, ne_eq, not_true_eq_false]
+      unfold integrateGLrule
+      congr 1
+      simp [toPairs, List.map_map, Function.comp_def]
+    · unfold integrateGLvalsRows integrateGLvals
+      simp only [h, Bool.not_true, Bool.false_eq_true, if_false, hlen]
+      by_cases hl : vals.length ≠ rows.length <;> simp [hl]
+
+example : integrateGLruleRows (fun x => x) [[1, 2], [3]] = .error .diag := by decide +kernel
+example : integrateGLvalsRows [5, 6] [[1, 2, 9], [3, 4, 9]] = .error .diag := by decide +kernel
+example : integrateGLvalsRows [5, 6] [[1, 2], [3, 4]] = .ok 34 := by decide +kernel
 
 /-! ## the weight uses the derivative at the returned node (fix f38103c) -/
 
